@@ -89,6 +89,8 @@ type Recorder struct {
 	Assumptions []string
 	Violations  int
 	printedKF   map[string]bool
+	BulkEval    int64 // cases of completely enumerated sub-spaces evaluated by inline loops
+	BulkNT      int64 // of those, the non-trivial ones (distinct by construction of the enumeration)
 }
 
 var (
@@ -181,6 +183,16 @@ func capJSON(b []byte) json.RawMessage {
 	return b
 }
 
+// Bulk accounts for cases of an enumerated sub-space that were evaluated by an
+// inline loop (too many to hash one by one). The enumeration visits each
+// point once, so the non-trivial ones are distinct by construction.
+func (r *Recorder) Bulk(evaluated, nontrivial int64) {
+	r.mu.Lock()
+	defer r.mu.Unlock()
+	r.BulkEval += evaluated
+	r.BulkNT += nontrivial
+}
+
 // shardFile is what one process leaves behind for the merge step.
 type shardFile struct {
 	ID          string            `json:"id"`
@@ -196,6 +208,8 @@ type shardFile struct {
 	Rule        string            `json:"rule"`
 	Assumptions []string          `json:"assumptions"`
 	Violations  int               `json:"violations"`
+	BulkEval    int64             `json:"bulk_evaluations"`
+	BulkNT      int64             `json:"bulk_nontrivial"`
 }
 
 // OutDir is where shard outputs and replay files go.
@@ -221,7 +235,7 @@ func FlushAll() {
 	for id, r := range recs {
 		r.mu.Lock()
 		sf := shardFile{ID: id, Evaluations: r.Evaluations, NonTrivial: r.NonTrivial, Distinct: len(r.hashes), HashCapped: r.hashCapped,
-			Labels: r.Labels, Excluded: r.Excluded, Subspaces: r.Subspaces, Exhaustive: r.Exhaustive, Rule: r.Rule, Assumptions: r.Assumptions, Violations: r.Violations}
+			Labels: r.Labels, Excluded: r.Excluded, Subspaces: r.Subspaces, Exhaustive: r.Exhaustive, Rule: r.Rule, Assumptions: r.Assumptions, Violations: r.Violations, BulkEval: r.BulkEval, BulkNT: r.BulkNT}
 		sf.Samples = append(sf.Samples, r.first...)
 		for _, s := range r.low {
 			sf.Samples = append(sf.Samples, s.v)
@@ -506,3 +520,20 @@ func EnvInt(name string, def int) int {
 
 // Thorough reports whether the thorough tier is running.
 func Thorough() bool { return os.Getenv("VERIF_TIER") == "thorough" }
+
+// ShardIndex and NShards describe how the driver split the run across
+// processes. Enumerations either run on shard 0 only or partition their space
+// by index so that no point is visited (and counted) twice.
+func ShardIndex() int { return EnvInt("VERIF_SHARD", 0) }
+
+// NShards is the number of parallel processes of this run.
+func NShards() int {
+	n := EnvInt("VERIF_NSHARDS", 1)
+	if n < 1 {
+		n = 1
+	}
+	return n
+}
+
+// FirstShard reports whether this process is shard 0 (or not a numbered shard at all).
+func FirstShard() bool { return ShardIndex() == 0 }
